@@ -135,7 +135,7 @@ class Check(PropertyCheck):
         for kb in ([1, 2, 4, 8] if self.tier == "quick" else [1, 2, 4, 8, 12, 16, 20]):
             t = (base * (kb * 1024 // len(base) + 1))[: kb * 1024]
             t0 = time.time()
-            res = common.run_impl("lib", ["s to_svg default %s" % hx(t)], timeout=600, nproc=1)
+            res = common.run_impl("lib", ["s to_svg default %s" % hx(t)], timeout=600, nproc=1, stall=600)
             dt = time.time() - t0
             self.evaluations += 1
             pts.append((kb, dt))
